@@ -27,7 +27,7 @@ class RaiseSignal(Exception):
 class Cfg:
     def __init__(self, **kw):
         self.task_id = kw.get('task_id', 'task')
-        self.branch_timeout_ms = kw.get('branch_timeout_ms', 3000)
+        self.branch_timeout_ms = kw.get('branch_timeout_ms', 10000)
         self.prove_timeout_ms = kw.get('prove_timeout_ms', 10000)
         self.max_paths = kw.get('max_paths', 4000)
         self.overrides = kw.get('overrides', {})      # qualname -> callable(interp, args, kwargs)
@@ -351,7 +351,7 @@ class Ctx:
             r, model = self.forked_check(fs, self.cfg.prove_timeout_ms, want_model=True)
             backend = 'z3-forked'
         else:
-            self.s.set('timeout', min(self.cfg.prove_timeout_ms, 2500))      # quick incremental attempt; fresh solvers get the full budget
+            self.s.set('timeout', min(self.cfg.prove_timeout_ms, 5000))      # quick incremental attempt; fresh solvers get the full budget
             r = self.s.check()
         ms = (time.time() - t0) * 1000
         if r == z3.unknown and not forked:
